@@ -560,6 +560,11 @@ func (s *SortField) MarshalJSON() ([]byte, error) {
 
 func (s *SortField) Copy() SearchSort {
 	rv := *s
+	// the per-search scratch buffers must not be shared with the copy: the
+	// copies made for the members of an alias are used concurrently, and
+	// after the original has been used once its buffers have backing arrays
+	rv.values = nil
+	rv.tmp = nil
 	return &rv
 }
 
@@ -800,6 +805,9 @@ func (s *SortGeoDistance) MarshalJSON() ([]byte, error) {
 
 func (s *SortGeoDistance) Copy() SearchSort {
 	rv := *s
+	// see SortField.Copy: do not share scratch buffers with the copy
+	rv.values = nil
+	rv.tmp = nil
 	return &rv
 }
 
